@@ -123,3 +123,42 @@ func VerifC09_verify_step() {
 		vReach("new")
 	}
 }
+
+// a concrete interleaving on top of the inductive step: client A is bound, a new client B is
+// verified, A comes back. A's binding still holds (a second anonymous origin id for its bound
+// index is refused, the first one is accepted again) and B's state is its own.
+func VerifC09_interleaved_clients() {
+	vUnwind(110)
+	vUseModels("ecapi")
+	issuer := t3Issuer("a")
+	cache := &c06Cache{m: map[string]*ClientState{}}
+	attester := NewRateLimitedAttester(cache)
+	secretA, secretB := vBytes("client_secret_a", 48, 48), vBytes("client_secret_b", 48, 48)
+	vAssume(secretA[0] != 0 && secretB[0] != 0 && !vBytesEq(secretA, secretB))
+	anonX, anonY := vBytes("anon_x", 8, 8), vBytes("anon_y", 8, 8)
+	vAssume(!vBytesEq(anonX, anonY))
+	step := func(secret []byte, tag string, anon []byte) ([]byte, error) {
+		blind := vBytes("blind"+tag, 48, 48)
+		vAssume(blind[0] != 0)
+		st, err := NewRateLimitedClientFromSecret(secret).CreateTokenRequest(vBytesC("challenge"+tag, 0, 0), vBytes("nonce"+tag, 32, 32), blind, issuer.TokenKeyID(), issuer.TokenKey(), "a", issuer.NameKey())
+		vAssume(err == nil)
+		_, brk, err := issuer.Evaluate(st.Request().Marshal())
+		vAssume(err == nil)
+		vAssert(attester.VerifyRequest(*st.Request(), blind, st.ClientKey(), anon) == nil, "honest-request-accepted"+tag)
+		return attester.FinalizeIndex(st.ClientKey(), blind, brk, anon)
+	}
+	idxA, err := step(secretA, "_a1", anonX)
+	vAssert(err == nil, "first-pair-of-a-accepted")
+	_, err = step(secretB, "_b1", anonY)
+	vAssert(err == nil, "first-pair-of-b-accepted")
+	_, err = step(secretA, "_a2", anonY)
+	vAssert(err != nil, "second-anonymous-origin-id-for-a-refused-after-b-was-seen")
+	idxA3, err := step(secretA, "_a3", anonX)
+	vAssert(err == nil, "a-s-own-pair-accepted-again")
+	if err == nil {
+		vAssert(vBytesEq(idxA3, idxA), "a-s-id-unchanged")
+	}
+	_, err = step(secretB, "_b2", anonX)
+	vAssert(err != nil, "second-anonymous-origin-id-for-b-refused")
+	vReach("interleaved")
+}
